@@ -991,6 +991,46 @@ theorem flatten_len8 (cs : List Bytes) (h : ∀ c ∈ cs, c.length = 8 ∧ AllB 
       · simp only [List.flatten_cons, List.length_append]; omega
       · simp only [List.flatten_cons]; exact AllB.append hc2 h2
 
+theorem mpCarrier_allB (afi safi : Nat) (nh : Bytes) (hs : safi < 256) (hn : AllB nh) (hl : nh.length < 256) :
+    AllB (mpCarrier afi safi nh) := by
+  unfold mpCarrier
+  refine AllB.append (AllB.append (AllB.append (beN_lt 2 afi) ?_) hn) ?_
+  · intro b hb
+    simp only [List.mem_cons, List.mem_nil_iff, or_false] at hb
+    rcases hb with rfl | rfl <;> assumption
+  · intro b hb
+    simp only [List.mem_singleton] at hb; subst hb; omega
+
+/-- the carrier built for a typed MP_REACH message consists of octets -/
+theorem mpReachValue_ok (fam : Option (Nat × Nat)) (nhs : List AStr) (b : Bytes)
+    (h : mpReachValue current fam nhs = some b) : AllB b := by
+  unfold mpReachValue at h
+  cases fam with
+  | none => simp at h
+  | some p =>
+      obtain ⟨afi, safi⟩ := p
+      simp only at h
+      split at h
+      · simp at h
+      · have hs : safi % 256 < 256 := Nat.mod_lt _ (by omega)
+        cases nhs with
+        | nil =>
+            simp only at h
+            split at h
+            · simp only [Option.some.injEq] at h; subst h
+              exact mpCarrier_allB _ _ [] hs (by intro b hb; simp at hb) (by simp)
+            · simp at h
+        | cons s rest =>
+            simp only at h
+            cases s with
+            | ip4 n =>
+                simp only [AStr.parse4, Option.some.injEq] at h; subst h
+                exact mpCarrier_allB _ _ _ hs (beN_lt 4 n) (by simp [beN_length])
+            | ip6 n =>
+                simp only [AStr.parse4, AStr.parse6, Option.some.injEq] at h; subst h
+                exact mpCarrier_allB _ _ _ hs (beN_lt 16 n) (by simp [beN_length])
+            | bad k => simp [AStr.parse4, AStr.parse6] at h
+
 /-- **from_api_wf**: whatever `attr_from_api` accepts satisfies the invariants of wire-decoded values,
     and carries the canonical flags of its code. -/
 theorem from_api_wf (x : ApiAttr) (a : Attribute) (hr : x.inRange = true)
@@ -1075,6 +1115,15 @@ theorem from_api_wf (x : ApiAttr) (a : Attribute) (hr : x.inRange = true)
       rw [e]
       exact wf_canon 32 0xC0 _ (by simp [canonicalFlags])
         (binClause_c32 _ (allB_specBytes hb hsz) (flatMap3_len l))
+  | mpReach fam nhs =>
+      simp only [fromApi0] at h
+      cases hv : mpReachValue current fam nhs with
+      | none => simp [hv] at h
+      | some b =>
+          simp [hv, newWithBin, canonicalFlags] at h; subst h
+          have hb := mpReachValue_ok fam nhs b hv
+          exact wf_canon 14 0x80 _ (by simp [canonicalFlags])
+            (by simp [dataClause, binClause, allB_specBytes hb hsz])
   | extCommunities l =>
       simp only [fromApi0] at h
       split at h
@@ -2109,6 +2158,11 @@ theorem from_api_code (x : ApiAttr) (a : Attribute) (h : fromApi0 current x = .o
       split at h
       · simp at h
       · simp [newWithBin, canonicalFlags] at h; subst h; simp
+  | mpReach fam nhs =>
+      simp only [fromApi0] at h
+      split at h
+      · simp at h
+      · simp [newWithBin, canonicalFlags] at h; subst h; simp
   | asPath segs =>
       simp only [fromApi0] at h
       split at h
@@ -2687,12 +2741,55 @@ theorem toApi_c16 (f : Nat) (b : Bytes) :
       .ok (.extCommunities ((chunksN 8 (b.length / 8) b).map (showExtcom current))) := by
   simp [toApi, Attribute.binary]
 
+/-- a typed MP_REACH message with at most one next hop (the carrier holds one: further ones are dropped,
+    the open finding `listed-lacks-further-next-hops`) -/
+def oneNextHop : ApiAttr → Prop
+  | .mpReach _ nhs => nhs.length ≤ 1
+  | _ => True
+
 /-- **listed with the same content**: what `attr_to_api` shows for an accepted value is the message that
     was sent (up to the two documented re-presentations of `Spec.sameListed`). -/
-theorem listed_same (x : ApiAttr) (a : Attribute) (y : ApiAttr) (hr : x.inRange = true)
+theorem listed_same (x : ApiAttr) (a : Attribute) (y : ApiAttr) (hr : x.inRange = true) (h1 : oneNextHop x)
     (h : fromApi current x = .ok a) (hy : toApi current a = .ok y) : sameListed x y = true := by
   obtain ⟨hst, h0, hsz⟩ := fromApi_ok x a h
   cases x with
+  | mpReach fam nhs =>
+      simp only [fromApi0] at h0
+      cases hv : mpReachValue current fam nhs with
+      | none => simp [hv] at h0
+      | some b =>
+          simp [hv, newWithBin, canonicalFlags] at h0; subst h0
+          simp [toApi, Attribute.binary] at hy; subst hy
+          unfold mpReachValue at hv
+          cases fam with
+          | none => simp at hv
+          | some p =>
+              obtain ⟨afi, safi⟩ := p
+              simp only [current, true_and] at hv
+              split at hv
+              · simp at hv
+              · rename_i hle
+                have ha : afi % 65536 = afi := Nat.mod_eq_of_lt (by omega)
+                have hs : safi % 256 = safi := Nat.mod_eq_of_lt (by omega)
+                rw [ha, hs] at hv
+                simp only [oneNextHop] at h1
+                match nhs, h1, hv with
+                | [], _, hv =>
+                    simp only at hv
+                    split at hv
+                    · simp only [Option.some.injEq] at hv; subst hv
+                      simp [sameListed, mpCarrier]
+                    · simp at hv
+                | [s], _, hv =>
+                    cases s with
+                    | ip4 n =>
+                        simp only [AStr.parse4, Option.some.injEq] at hv; subst hv
+                        simp [sameListed, mpCarrier, AStr.parse4, beN_length]
+                    | ip6 n =>
+                        simp only [AStr.parse4, AStr.parse6, Option.some.injEq] at hv; subst hv
+                        simp [sameListed, mpCarrier, AStr.parse4, AStr.parse6, beN_length]
+                    | bad k => simp [AStr.parse4, AStr.parse6] at hv
+                | _ :: _ :: _, h1, _ => simp at h1
   | missing => simp [fromApi0] at h0
   | other => simp [fromApi0] at h0
   | origin o =>
@@ -2860,18 +2957,18 @@ theorem listed_same (x : ApiAttr) (a : Attribute) (y : ApiAttr) (hr : x.inRange 
             simp [sameListed]
           · simp at h0
 
-theorem checkListed_ok0 (x : ApiAttr) (a : Attribute) (hr : x.inRange = true)
+theorem checkListed_ok0 (x : ApiAttr) (a : Attribute) (hr : x.inRange = true) (h1 : oneNextHop x)
     (h : fromApi current x = .ok a) : checkListed x (attrObs current a) = .ok := by
   unfold checkListed attrObs
   simp only
   cases hy : toApi current a with
-  | ok y => simp [listed_same x a y hr h hy]
+  | ok y => simp [listed_same x a y hr h1 h hy]
   | err => rfl
   | panic => rfl
 
-theorem checkListed_ok (x : ApiAttr) (a : Attribute) (hr : x.inRange = true)
+theorem checkListed_ok (x : ApiAttr) (a : Attribute) (hr : x.inRange = true) (h1 : oneNextHop x)
     (h : fromApi current x = .ok a) (_hm : modelledCode a.code = true) :
-    checkListed x (attrObs current a) = .ok := checkListed_ok0 x a hr h
+    checkListed x (attrObs current a) = .ok := checkListed_ok0 x a hr h1 h
 
 /-! ## AddPath then ListPath -/
 
@@ -2881,7 +2978,7 @@ def codeOf : ApiAttr → Nat
   | .unknown _ t _ => t
   | .origin _ => 1 | .asPath _ => 2 | .nextHop _ => 3 | .med _ => 4 | .localPref _ => 5
   | .atomicAggregate => 6 | .aggregator .. => 7 | .communities _ => 8 | .originatorId _ => 9
-  | .clusterList _ => 10 | .largeCommunities _ => 32 | .extCommunities _ => 16
+  | .clusterList _ => 10 | .largeCommunities _ => 32 | .extCommunities _ => 16 | .mpReach .. => 14
 
 theorem from_api_codeOf (x : ApiAttr) (a : Attribute) (h : fromApi0 current x = .ok a) : a.code = codeOf x := by
   cases x with
@@ -2925,6 +3022,11 @@ theorem from_api_codeOf (x : ApiAttr) (a : Attribute) (h : fromApi0 current x = 
       split at h
       · simp at h
       · simp [newWithBin, canonicalFlags] at h; subst h; rfl
+  | mpReach fam nhs =>
+      simp only [fromApi0] at h
+      split at h
+      · simp at h
+      · simp [newWithBin, canonicalFlags] at h; subst h; rfl
   | asPath segs =>
       simp only [fromApi0] at h
       split at h
@@ -2951,6 +3053,10 @@ theorem from_api_codeOf (x : ApiAttr) (a : Attribute) (h : fromApi0 current x = 
     CLUSTER_LIST, MP_UNREACH) -/
 def kept (x : ApiAttr) : Prop := codeOf x ≠ 3 ∧ codeOf x ≠ 9 ∧ codeOf x ≠ 10 ∧ codeOf x ≠ 14 ∧ codeOf x ≠ 15
 
+theorem kept_one (x : ApiAttr) (h : kept x) : oneNextHop x := by
+  cases x <;> simp [oneNextHop]
+  simp [kept, codeOf] at h
+
 theorem keepAttrs_id (as : List Attribute)
     (h : ∀ a ∈ as, a.code ≠ 3 ∧ a.code ≠ 9 ∧ a.code ≠ 10 ∧ a.code ≠ 14 ∧ a.code ≠ 15) : keepAttrs as = .ok as := by
   induction as with
@@ -2968,7 +3074,7 @@ inductive Zip2 {α β} (R : α → β → Prop) : List α → List β → Prop w
 
 /-- sent messages and what is listed for them correspond one to one -/
 theorem convert_list (xs : List ApiAttr) (as : List Attribute) (hr : ∀ x ∈ xs, x.inRange = true)
-    (hc : convertAll current xs = .ok as) (hm : ∀ a ∈ as, modelledCode a.code = true) :
+    (h1 : ∀ x ∈ xs, oneNextHop x) (hc : convertAll current xs = .ok as) (hm : ∀ a ∈ as, modelledCode a.code = true) :
     ∃ ys, listAttrs current as = .ok ys ∧ Zip2 (fun x y => sameListed x y = true) xs ys ∧
       (∀ a ∈ as, ∃ x ∈ xs, a.code = codeOf x) := by
   induction xs generalizing as with
@@ -2986,10 +3092,11 @@ theorem convert_list (xs : List ApiAttr) (as : List Attribute) (hr : ∀ x ∈ x
               have hma : modelledCode a.code = true := hm a (by simp)
               obtain ⟨hwf, hfc, hrt⟩ := from_api_rt x a (hr x (by simp)) hx hma
               obtain ⟨y, hy, _⟩ := rtreal_of_rt a hwf hrt
-              obtain ⟨ys, hl, hf, hcodes⟩ := ih as' (fun z hz => hr z (List.mem_cons_of_mem _ hz)) hrest
+              obtain ⟨ys, hl, hf, hcodes⟩ := ih as' (fun z hz => hr z (List.mem_cons_of_mem _ hz))
+                (fun z hz => h1 z (List.mem_cons_of_mem _ hz)) hrest
                 (fun b hb => hm b (List.mem_cons_of_mem _ hb))
               refine ⟨y :: ys, by simp [listAttrs, hy, hl], ?_, ?_⟩
-              · exact Zip2.cons (listed_same x a y (hr x (by simp)) hx hy) hf
+              · exact Zip2.cons (listed_same x a y (hr x (by simp)) (h1 x (by simp)) hx hy) hf
               · intro b hb
                 rcases List.mem_cons.mp hb with rfl | hb
                 · exact ⟨x, by simp, from_api_codeOf x b (fromApi_ok x b hx).2.1⟩
@@ -3138,7 +3245,7 @@ theorem checkPath_ok' (sent : List ApiAttr) (stored : List Attribute) (hr : ∀ 
         intro a ha; subst hl
         split <;> split <;> simp [ha]
       have hmas : ∀ a ∈ as, modelledCode a.code = true := fun a ha => hm a (hsub a ha)
-      obtain ⟨ys, hlist, hf, _⟩ := convert_list sent as hr hc hmas
+      obtain ⟨ys, hlist, hf, _⟩ := convert_list sent as hr (fun x hx => kept_one x (hk x hx)) hc hmas
       obtain ⟨hleft, hright⟩ := forall2_left hf
       have ho : listAttrs current [originIgp] = .ok [.origin 0] := by
         simp [listAttrs, toApi, originIgp, Attribute.value]
@@ -3248,7 +3355,8 @@ theorem rpkiShown_nil (n : Nlri) (sent : List ApiAttr) (stored : List Attribute)
       LENGTH on a short value, unused low bits) is stored verbatim by the decoder but not carried by the
       typed API messages — the open finding `roundtrip-flags-differ` /
       `roundtrip-noncanonical-flags-rejected`, see `Props.flags_not_carried`.
-    * API cases: the scalar fields are within their protobuf widths.
+    * API cases: the scalar fields are within their protobuf widths; a typed MP_REACH message has at most one
+      next hop (further ones are dropped: the open finding `listed-lacks-further-next-hops`).
     * `grpc` (AddPath then ListPath): no attribute that `local_path` consumes or drops is sent
       (NEXT_HOP / raw MP_REACH, ORIGINATOR_ID, CLUSTER_LIST, raw MP_UNREACH) — ListPath does not show
       them: the open findings `listed-path-lacks-*`; the global table (not a VRF); and no VRP is installed: the state shown is then
@@ -3256,7 +3364,7 @@ theorem rpkiShown_nil (n : Nlri) (sent : List ApiAttr) (stored : List Attribute)
       only cross-checked on the real handlers against `Spec.rpkiExpected`). -/
 def caseOk : Case → Prop
   | .attrWire code flags _ => ∀ f, canonicalFlags code = some f → flags = f
-  | .attrApi x => x.inRange = true
+  | .attrApi x => x.inRange = true ∧ oneNextHop x
   | .nlriWire _ bs => AllB bs
   | .nlriApi x => x.inRange = true
   | .grpc x attrs vrps vrf =>
@@ -3291,9 +3399,9 @@ theorem check_run_ok (c : Case) (h : caseOk c) : Spec.check c (run current c) = 
           simp only
           split
           · rename_i hm
-            obtain ⟨hwf, hfc, hrt⟩ := from_api_rt x a h hf hm
+            obtain ⟨hwf, hfc, hrt⟩ := from_api_rt x a h.1 hf hm
             simp only [Spec.check, checkAttr_ok "accepted" a hwf hrt, seq]
-            exact checkListed_ok x a h hf hm
+            exact checkListed_ok x a h.1 h.2 hf hm
           · rfl
       | err => rfl
       | panic => exact absurd hf (fromApi_no_panic x)
